@@ -14,6 +14,10 @@ pub enum GitOp {
     /// as Edit, but the file keeps an old modification time (cp -p, rsync -t, tar extraction, mv of an older file)
     EditOld { path: String },
     Delete { path: String },
+    /// the file becomes empty (0 bytes): a content of its own, not a deletion
+    Empty { path: String },
+    /// the file is rewritten with the bytes it already has (only its stat data changes)
+    RewriteSame { path: String },
     Move { from: String, to: String, git: bool, edit: bool },
     Stage { path: String },
     StageAll,
@@ -79,6 +83,12 @@ impl RGit {
             GitOp::Delete { path } => {
                 self.wt.remove(path);
             }
+            GitOp::Empty { path } => {
+                if self.wt.contains_key(path) {
+                    self.wt.insert(path.clone(), String::new());
+                }
+            }
+            GitOp::RewriteSame { .. } => {}
             GitOp::Move { from, to, git, edit } => {
                 if let Some(c) = self.wt.remove(from) {
                     if *git {
@@ -240,12 +250,14 @@ pub struct HistGen<'a> {
     pub bulk_left: usize,
     /// at most this many files larger than 2 MiB per history
     pub big_left: usize,
+    /// emptying files repeats a content (""), which C07's "content it never had" clause must avoid
+    pub allow_empty: bool,
     n_created: usize,
 }
 
 impl<'a> HistGen<'a> {
     pub fn new(rng: &'a mut Rng, model: RGit, dirs: Vec<String>, protected: BTreeSet<String>) -> Self {
-        HistGen { rng, model, dirs, protected, long_names: false, bulk_left: 0, big_left: 0, n_created: 0 }
+        HistGen { rng, model, dirs, protected, long_names: false, bulk_left: 0, big_left: 0, allow_empty: false, n_created: 0 }
     }
     fn new_path(&mut self, ignored: bool) -> String {
         let d = self.dirs[self.rng.below(self.dirs.len())].clone();
@@ -291,7 +303,15 @@ impl<'a> HistGen<'a> {
                     let old = self.rng.chance(1, 5);
                     self.existing(&wt).map(|p| if old { GitOp::EditOld { path: p } } else { GitOp::Edit { path: p } })
                 }
-                7 | 8 => self.existing(&wt).map(|p| GitOp::Delete { path: p }),
+                7 => self.existing(&wt).map(|p| GitOp::Delete { path: p }),
+                8 => {
+                    let small: BTreeSet<String> = wt.iter().filter(|p| !p.ends_with(".big")).cloned().collect();
+                    match self.rng.below(3) {
+                        0 => self.existing(&wt).map(|p| GitOp::Delete { path: p }),
+                        1 if self.allow_empty => self.existing(&small).map(|p| GitOp::Empty { path: p }),
+                        _ => self.existing(&tracked_wt).map(|p| GitOp::RewriteSame { path: p }),
+                    }
+                }
                 9 | 10 => {
                     let git = self.rng.chance(1, 2);
                     let src = if git { self.existing(&tracked_wt) } else { self.existing(&wt) };
@@ -350,6 +370,21 @@ pub fn exec_repo_op(w: &mut World, op: &GitOp, model_after: &RGit) -> Result<(),
             Ok(())
         }
         GitOp::Delete { path } => std::fs::remove_file(w.root.join(path)).map_err(|e| format!("rm {}: {}", path, e)),
+        GitOp::Empty { path } => {
+            if model_after.wt.contains_key(path) {
+                w.write_bytes(path, b"")?;
+            }
+            Ok(())
+        }
+        GitOp::RewriteSame { path } => {
+            let p = w.root.join(path);
+            if let Ok(b) = std::fs::read(&p) {
+                // a different inode and fresh timestamps, identical bytes
+                let _ = std::fs::remove_file(&p);
+                std::fs::write(&p, b).map_err(|e| e.to_string())?;
+            }
+            Ok(())
+        }
         GitOp::Move { from, to, git, edit } => {
             if let Some(d) = w.root.join(to).parent() {
                 std::fs::create_dir_all(d).map_err(|e| e.to_string())?;
